@@ -508,14 +508,14 @@ impl Db {
                 let started = std::time::Instant::now();
                 let mut panic_seen: Option<std::time::Instant> = None;
                 loop {
-                    match tokio::time::timeout(Duration::from_millis(25), &mut fut).await {
+                    match tokio::time::timeout(Duration::from_millis(10), &mut fut).await {
                         Ok(r) => return Ok(r),
                         Err(elapsed) => {
                             if panic_seen.is_none() && !PANICS.lock().unwrap().is_empty() {
                                 panic_seen = Some(std::time::Instant::now());
                             }
                             if let Some(t) = panic_seen {
-                                if t.elapsed() > Duration::from_millis(300) {
+                                if t.elapsed() > Duration::from_millis(50) {
                                     return Err(elapsed);
                                 }
                             }
